@@ -50,7 +50,7 @@ def teardown(ctx):
 
 
 def plan(tier):
-    m = 3 if tier == 'quick' else 25
+    m = 3 if tier == 'quick' else 120
     p = []
     for rel in ('fft', 'affine', 'rename_ordered', 'rename_reordering', 'permute_args', 'add_const', 'multiply'):
         p.append(('pair:' + rel, 90 * m))
